@@ -40,6 +40,7 @@ package tensor
 //@   props C01 C16
 //@   requires [dims] forall i :: 0 <= i && i < len(ap.shape) ==> ap.shape[i] >= 0
 //@   ensures [row_major] (ap.o & ColMajor) == DataOrder(0) && len(ap.shape) > 0 ==> len(result) == len(ap.shape) && (forall i :: 0 <= i && i < len(ap.shape) ==> result[i] == sufprod(ap.shape, i+1))
+//@   ensures [owned] isnil(result) || (fresh(result) && gh("lib", result.arr) == 1)
 //@   ensures [col_major] (ap.o & ColMajor) != DataOrder(0) && !allOnes(ap.shape) && !isVec(ap.shape) ==> len(result) == len(ap.shape) && (forall i :: 0 <= i && i < len(ap.shape) ==> result[i] == preprod(ap.shape, i))
 //@   assigns nothing
 
@@ -67,3 +68,26 @@ package tensor
 //@   ensures [oob] i >= 0 && (exists d :: 0 <= d && d < n && coords[d] >= shape[d]) ==> err != nil
 //@   ensures [operands] unchanged(shape) && unchanged(strides)
 //@   assigns nothing
+
+//@ func tensor.Shape.Repeat
+//@   props C10 C13 C19
+//@   mode rank s
+//@   let n = len(s)
+//@   let single = len(repeats) == 1
+//@   requires [dims] forall d :: 0 <= d && d < n ==> s[d] >= 0
+//@   requires [axis_lo] axis >= -1
+//@   requires [axis_scalar] n == 0 ==> axis <= 1
+//@   requires [sep] disjoint(s, repeats)
+//@   ensures [bad_axis] n > 0 && axis >= n && !(n == 1 && axis == 1) ==> err != nil
+//@   ensures [count_mismatch] 0 <= axis && axis < n && !single && len(repeats) != s[axis] ==> err != nil
+//@   ensures [count_mismatch_all] axis == AllAxes && !single && len(repeats) != prodInts(s, n) ==> err != nil
+//@   ensures [accepts] 0 <= axis && axis < n && (single || len(repeats) == s[axis]) ==> err == nil
+//@   ensures [shape] err == nil && 0 <= axis && axis < n ==> len(newShape) == n && size == s[axis] && (forall d :: 0 <= d && d < n && d != axis ==> newShape[d] == s[d]) && newShape[axis] == sumInts(finalRepeats, len(finalRepeats))
+//@   ensures [shape_all] err == nil && axis == AllAxes ==> len(newShape) == 1 && size == prodInts(s, n) && newShape[0] == sumInts(finalRepeats, len(finalRepeats))
+//@   ensures [shape_newaxis] err == nil && n == 1 && axis == 1 ==> len(newShape) == 2 && newShape[0] == s[0] && newShape[1] == sumInts(finalRepeats, len(finalRepeats)) && size == 1
+//@   ensures [repeats_single] err == nil && single ==> len(finalRepeats) == size && (forall j :: 0 <= j && j < size ==> finalRepeats[j] == old(repeats[0]))
+//@   ensures [repeats_given] err == nil && !single ==> same(finalRepeats, repeats) && len(repeats) == size
+//@   ensures [operands] unchanged(s) && unchanged(repeats)
+//@   ensures [fresh] err == nil ==> fresh(newShape)
+//@   assigns nothing
+//@   loop 0 invariant [fill] 0 <= _i && _i <= size && len(repeats) == size && fresh(repeats) && fresh(newShape) && err == nil && (forall j :: 0 <= j && j < _i ==> repeats[j] == rep)
